@@ -150,6 +150,9 @@ def gen_project(rng, with_siblings=True):
     # crash corner (DESIGN §E): queries here raise from deep inside the engine (K2; K1/K3/K4 in the tails) -
     # they are the "failing queries in between" that exercise every finally: on the way out
     lines += ['kk = None', 'kk.real', 'lst = [1, 2]']
+    # ... through predefine_names (comprehension, generator with a for loop) and execution_allowed
+    lines += ['cmp = [kk.real for it2 in (1, 2)]', 'cmp[0]', 'def gen():', '    for it3 in (1, 2):', '        yield kk.real',
+              'for gv in gen():', '    gv', 'def bad(p):', '    return kk.real', 'bv = bad(1)', 'bv']
     lines.append('v1; v2; v3; v4; v5; v6; num')
     lines.append('v1.%s; v2.%s; v4.%s' % (info[a][0][0], info[b][0][0], meth))
     lines.append('w = v1.%s' % meth)
@@ -182,6 +185,8 @@ CORPUS = [
     ({}, "def f(a):\n    return a\ndef f(a, b):\n    return b\nx = 1\nx = 's'\nx\nf(x, \n"),
     ({}, "class A:\n    def m(self):\n        return 1\ndef g(c):\n    if c:\n        return A()\n    return None\n"
          "kk = None\nkk.real\nw = g(1)\nw\nw.m\nlst = [1]\nlst."),
+    ({}, "kk = None\ncmp = [kk.real for it2 in (1, 2)]\ncmp[0]\ndef gen():\n    for it3 in (1, 2):\n        yield kk.real\n"
+         "for gv in gen():\n    gv\nclass A:\n    pass\na = A()\na\ndef bad(p):\n    return kk.real\nbv = bad(1)\nbv\n"),
 ]
 
 IDENT = re.compile(r'[A-Za-z_][A-Za-z_0-9]*')
@@ -225,7 +230,7 @@ def make_cases(rng, nproj, root):
         lines = source.split('\n')
         qs = []
         # the multi-valued uses at the end are always asked, the rest is sampled
-        tail_pos = [p for p in poss if p[0] >= len(lines) - 8]
+        tail_pos = [p for p in poss if p[0] >= len(lines) - 19]
         tail_pos = sorted(rng.sample(tail_pos, min(len(tail_pos), 2 * nq)))
         sample = rng.sample(poss, min(len(poss), nq)) if poss else []
         for (ln, col, word) in tail_pos + [p for p in sample if p not in tail_pos]:
@@ -441,14 +446,17 @@ def run_one(script, method, line, col, root, before=None, after=None):
     Cap.log, Cap.mark, Cap.calls, Cap.comp = [], 0, [], None
     if before:
         before()
+    failed = None
     try:
-        try:
-            result = call_query(script, method, line, col)
-        finally:
-            if after:
-                after()
+        result = call_query(script, method, line, col)
     except Exception as e:
-        return dict(ok=False, exc=exc_sig(e))
+        failed = dict(ok=False, exc=exc_sig(e))
+    # the exception object is released here: frames of suspended generators it kept alive (a generator parked
+    # inside `with predefine_names(...)`) are closed before the state is read
+    if after:
+        after(failed is not None)
+    if failed:
+        return failed
     try:
         return observe(method, result, root)
     except Exception as e:
@@ -1455,9 +1463,13 @@ def run_traced(script, method, line, col, root):
         Tr.log = []
         Tr.on = True
 
-    def after():
-        Tr.on = False
+    def after(raised):
         state['after'] = read_transients(script)
+        if raised and state['after'] != IDLE:
+            import gc
+            gc.collect()        # exception <-> frame cycles
+            state['after'] = read_transients(script)
+        Tr.on = False
         state['trace'] = Tr.log
         Tr.log = []
     rec = run_one(script, method, line, col, root, before, after)
@@ -1570,6 +1582,12 @@ def make_repeat_tasks(ctx, cases):
         for i, ln in enumerate(lines, 1):
             if ln == 'kk.real':
                 pool.append((rng.choice(['infer', 'refs', 'goto_fi', 'help']), i, rng.choice([0, 1, 4, 6])))
+            if ln == 'cmp[0]' and rng.random() < 0.7:
+                pool.append(('infer', i, 1))
+            if ln == '    gv' and rng.random() < 0.7:
+                pool.append(('infer', i, 4))
+            if ln == 'bv' and rng.random() < 0.7:
+                pool.append(('infer', i, 0))
         if lines[-1].endswith('.') and rng.random() < 0.8:
             pool.append(('complete', len(lines), len(lines[-1])))
         if rng.random() < 0.5:
